@@ -74,7 +74,10 @@ class AckFamily:
         if raced and rng.random() < 0.7:
             rt = {'flavor': 'multi', 'workers': 2, 'chaos': {'max_yields': 2, 'pause_us': rng.choice([20, 100, 300]), 'seed': rng.randrange(1, 1 << 40)}}
         sc = {'id': '', 'family': 'ack', 'sched': rt['flavor'] + '-' + store + ('-raced' if raced else ''), 'runtime': rt, 'engine': {'store': store, 'keep_processes': True, 'max_retry': max_retry, 'tick_interval_secs': interval_s}, 'models': [json.dumps(wf)],
-              'channels': [{'id': 'main', 'ack': True}], 'responder': {'mode': rng.choice(['quiescent', 'quiescent', 'inline']), 'rules': rules}, 'ops': ops, 'watchdog_ms': 60000}
+              'channels': [{'id': 'main', 'ack': True}] + ([{'id': 'second', 'ack': True, 'events': False}] if rng.random() < opts.get('second', 0.25) else []),
+              'responder': {'mode': rng.choice(['quiescent', 'quiescent', 'inline']), 'rules': rules}, 'ops': ops, 'watchdog_ms': 60000}
+        if len(sc['channels']) > 1:
+            sc['sched'] += '-twoack'       # a second acknowledging client with the same filter: it records the same messages
         return {'scenarios': [sc], 'meta': {'wf': wf, 'I': I, 'max': max_retry, 'store': store}, 'digest': digest([wf, rules, ops, max_retry, I]), 'nontrivial': True}
 
     def judge(self, c, opts, obs):
